@@ -1,8 +1,9 @@
 import S2T.Drv.Util
 import S2T.Spec.Omml
 import S2T.Gen.Omml
+import S2T.Model.OmmlHist
 namespace S2T.Drv.C19
-open Lean S2T.Drv S2T.Omml
+open Lean S2T.Drv S2T.Omml S2T.OmmlHist
 
 /-- {"m": bool, "n": local name, "v": str|null, "t": str, "k": [children]} ↦ `Xml` -/
 partial def toXml (j : Json) : Except String Xml := do
@@ -35,10 +36,38 @@ def greek (j : Json) : Except String Json := do
   let s ← getStr j "s"
   return Json.mkObj [("out", jStr (convert S2T.Gen.Omml.tables (chars s)))]
 
+/-- one step of a history: {"op": "conv"|"text"|"val"|"tag"|"ins"|"del"|"kids", "p": [child indices], …} -/
+def toStep (j : Json) : Except String Step := do
+  let op ← getStr j "op"
+  let p ← natArr j "p"
+  match op with
+  | "conv" => return .conv p
+  | "text" => return .edit p (.setText (chars (← getStr j "s")))
+  | "val" => return .edit p (.setVal ((← getOptStr j "v").map chars))
+  | "tag" => return .edit p (.setTag (← getBool j "m") (chars (← getStr j "n")))
+  | "ins" => return .edit p (.insert (← getNat j "i") (← toXml (← j.getObjVal? "x")))
+  | "del" => return .edit p (.remove (← getNat j "i"))
+  | "kids" => return .edit p (.setKids (← (← getArr j "k").toList.mapM toXml))
+  | _ => throw s!"unknown history step {op}"
+
+/-- op `c19.hist`: {"tree": node, "steps": [step]} ↦ {"outs": the conversions the property demands along the history
+    (`S2T.OmmlHist.fresh (omml tables)`), "final": the tree after all edits re-encoded} -/
+partial def xmlJson : Xml → Json
+  | .node m n v t k => Json.mkObj [("m", Json.bool m), ("n", jStr n), ("v", match v with | some s => jStr s | none => Json.null),
+      ("t", jStr t), ("k", Json.arr (k.map xmlJson).toArray)]
+
+def hist (j : Json) : Except String Json := do
+  let x ← toXml (← j.getObjVal? "tree")
+  let steps ← (← getArr j "steps").toList.mapM toStep
+  let outs := fresh (omml S2T.Gen.Omml.tables) x steps
+  let fin := steps.foldl (fun t s => match s with | .edit q e => editAt q e t | .conv _ => t) x
+  return Json.mkObj [("outs", Json.arr (outs.map jStr).toArray), ("final", xmlJson fin)]
+
 def handle (op : String) (j : Json) : Option (Except String Json) :=
   match op with
   | "c19.conv" => some (conv j)
   | "c19.greek" => some (greek j)
+  | "c19.hist" => some (hist j)
   | _ => none
 
 end S2T.Drv.C19
